@@ -4,6 +4,7 @@
 #  (1) the demonstration fails with the change and passes without it,
 #  (2) the repository's suite still passes its 263 baseline tests with the change,
 # then runs the named checks (quick tier) against the changed tree and reports their exit codes.
+HERE="$(cd "$(dirname "$0")" && pwd)"
 name="$1"; patch="$2"; demo="$3"; shift 3
 WT=/tmp/seed/eval_$name
 OUT=/tmp/seed/out_$name
@@ -14,11 +15,11 @@ if ! git -C "$WT" apply "$patch"; then echo "PATCH DOES NOT APPLY"; git -C /repo
 PYTHONPATH=/repo/src /venv/bin/python "$demo" > "$OUT/demo_clean.log" 2>&1; d0=$?
 PYTHONPATH="$WT/src" /venv/bin/python "$demo" > "$OUT/demo_changed.log" 2>&1; d1=$?
 echo "demo: unchanged tree exit=$d0, changed tree exit=$d1"
-/verif/baseline_check.sh "$WT" > "$OUT/baseline.log" 2>&1; b=$?
+"$HERE/baseline_check.sh" "$WT" > "$OUT/baseline.log" 2>&1; b=$?
 echo "baseline suite with the change: $(head -1 $OUT/baseline.log) (rc=$b)"
 for p in "$@"; do
   s=$(date +%s)
-  (cd /verif && VERIF_REPO="$WT" VERIF_OUT="$OUT" timeout 3000 ./check "$p" quick > "$OUT/check_$p.log" 2>&1); rc=$?
+  (cd "$HERE" && VERIF_REPO="$WT" VERIF_OUT="$OUT" timeout 3000 ./check "$p" quick > "$OUT/check_$p.log" 2>&1); rc=$?
   e=$(date +%s)
   echo "check $p: exit=$rc ($((e-s))s) $(grep -c '^VIOLATION' $OUT/check_$p.log) violation signature(s)"
   grep -A1 '^VIOLATION' "$OUT/check_$p.log" | grep signature | head -3 | cut -c1-260
